@@ -18,7 +18,7 @@
       [scope]              the Scope iterator of registry/mod.rs (follows STORED parent ids while lookups succeed);
                            [from_root] = collect and reverse. *)
 From Coq Require Import List NArith Bool Arith.
-From TV Require Import Registry.Model Registry.Inv Registry.Run Registry.C05Proofs Registry.C06Proofs.
+From TV Require Import Registry.Model Registry.Inv Registry.Run Registry.C05Proofs Registry.C06Proofs Registry.Filtered.
 From TVGen Require Gen_registry.
 Import ListNotations.
 Local Open Scope nat_scope.
@@ -76,7 +76,8 @@ Proof. exact new_span_parent_history. Qed.
 Print Assumptions C06_parent.
 
 (** Parents of events: Context::event_span / event_scope as a layer sees them inside on_event. *)
-Theorem C06_event_parent : forall st t k i, st_panicked st = false -> eff st t false = Some i ->
+Theorem C06_event_parent : forall st t k i, st_panicked st = false -> existsb odd_hid (op_hids (OEvent_ t k)) = false ->
+  eff st t false = Some i ->
   exists d, step st (OEvent_ t k) =
     (st, [OEvent i (match lookup_current st i t with Some c => seq_at st i c | None => None end)
                  (match event_parent st i t k with Some s => seq_at st i s | None => None end)
@@ -115,11 +116,71 @@ Theorem C06_ancestors_readable : forall layers g h, Config_ok layers -> WellForm
 Proof. exact ancestors_readable_history. Qed.
 Print Assumptions C06_ancestors_readable.
 
+(* ------------------------------------------------------------------------------------------------------------------
+   A layer behind a per-subscriber filter (the outermost Layered frame of every instance).  [OEnabled t dis] is
+   Collect::enabled leaving the filter's verdict in the FILTERING thread-local of thread t; Registry::new_span stores it as
+   the span's FilterMap bit ([st_vis], by creation number; [C06_filter_bit_at_creation]); [enabled_for] = SpanRef::
+   is_enabled_for; [flookup_current] = Context::lookup_current of that layer (the stack walk of lookup_current_filtered);
+   [fscope] = its Scope (disabled spans skipped). *)
+
+(** The filtered layer's current span is the most recently entered, not yet exited span of the thread that its filter
+    enabled — a function of the thread's own enter/exit history. *)
+Theorem C06_lookup_current_filtered : forall layers g h, Config_ok layers -> WellFormed layers g h -> OwnDefault layers g h ->
+  forall i t, NoReentry (final (init layers g) h) i t ->
+  flookup_current (final (init layers g) h) i t =
+  hd_error (filter (enabled_for (final (init layers g) h) i) (thread_ene (final (init layers g) h) i t)).
+Proof. exact flookup_history. Qed.
+Print Assumptions C06_lookup_current_filtered.
+
+(** The other reading — the disabled top-of-stack span's nearest enabled ANCESTOR (seeded mutant C06-D) — is refuted: on a
+    history that enters a filtered-out span outside its parent it differs from the specification. *)
+Theorem C06_parent_chain_reading_refuted :
+  exists layers g h i t, Config_ok layers /\ WellFormed layers g h /\ OwnDefault layers g h /\
+    NoReentry (final (init layers g) h) i t /\
+    flookup_parent_chain (final (init layers g) h) i t <>
+    hd_error (filter (enabled_for (final (init layers g) h) i) (thread_ene (final (init layers g) h) i t)).
+Proof. exact parent_chain_reading_refuted. Qed.
+Print Assumptions C06_parent_chain_reading_refuted.
+
+(** Its scope / from_root: the enabled members of THE ancestor chain, in order / reversed. *)
+Theorem C06_scope_filtered : forall layers g h, Config_ok layers -> WellFormed layers g h -> OwnDefault layers g h ->
+  forall i s sl, lookup (final (init layers g) h) i s = Some sl ->
+  exists l, chain (cpar_of (final (init layers g) h)) (s_seq sl) l /\
+            fscope (final (init layers g) h) i s = filter (fun q => vis_get q (st_vis (final (init layers g) h))) l /\
+            from_root (fscope (final (init layers g) h) i s) = rev (filter (fun q => vis_get q (st_vis (final (init layers g) h))) l).
+Proof. exact fscope_history. Qed.
+Print Assumptions C06_scope_filtered.
+
+(** event_span / event_scope / from_root as that layer sees them inside on_event. *)
+Theorem C06_event_filtered : forall st t k i, st_panicked st = false -> existsb odd_hid (op_hids (OFEvent_ t k)) = false ->
+  eff st t false = Some i ->
+  let es := match k with
+            | PRoot => None
+            | PCtx => flookup_current st i t
+            | PExplicit hp => match hget hp (st_handles st) with
+                              | Some (HSpan _ p) => if enabled_for st i p then Some p else None
+                              | _ => None end
+            end in
+  step st (OFEvent_ t k) =
+    (st, [OFEvent i (match flookup_current st i t with Some c => seq_at st i c | None => None end)
+                  (match es with Some s => seq_at st i s | None => None end)
+                  (match es with Some s => fscope st i s | None => [] end)
+                  (rev (match es with Some s => fscope st i s | None => [] end))]).
+Proof. exact fevent_spec. Qed.
+Print Assumptions C06_event_filtered.
+
+Theorem C06_filter_bit_at_creation : forall st t h k a, st_panicked st = false ->
+  existsb odd_hid (op_hids (ONewSpan t h k a)) = false ->
+  st_count st < st_count (fst (step st (ONewSpan t h k a))) ->
+  vis_get (st_count st) (st_vis (fst (step st (ONewSpan t h k a)))) = negb (existsb (fun x => x =? t) (st_filtering st)).
+Proof. exact vis_at_creation. Qed.
+Print Assumptions C06_filter_bit_at_creation.
+
 (** Tie to the source text (shared with C05): stack.rs push / pop (`.rev().find`) / iter (skips duplicates) / current,
     Registry::new_span's parent resolution, current_span, Scope::next, from_root (`.rev()`), SpanRef::scope, Context::
     event_span / event_scope / lookup_current have exactly the shapes Registry/Model.v mirrors. *)
 Theorem C06_model_mirrors_source :
-  forallb snd Gen_registry.shapes = true /\ length Gen_registry.shapes = 20 /\ Gen_registry.gen_unrecognised = [].
+  forallb snd Gen_registry.shapes = true /\ length Gen_registry.shapes = 21 /\ Gen_registry.gen_unrecognised = [].
 Proof. exact (proj2 model_mirrors_source). Qed.
 Print Assumptions C06_model_mirrors_source.
 
